@@ -811,7 +811,8 @@ def main(tier, seed):
                     "neighbour-disturbed" if "neighbour" in why0 else
                     "library-fault-on-invalid-job" if "library-fault" in why0 else
                     re.sub(r"[^a-z0-9]+", "-", why0.lower())[:40])
-            cls = "NEW:%s-cipher-%s-hash-%s" % (what, w[IDX["cipher_mode"]], w[IDX["hash_alg"]])
+            cls = "NEW:%s-cipher-%s" % (what, w[IDX["cipher_mode"]]) if what.startswith(("invalid-job", "library-fault")) else \
+                "NEW:%s-cipher-%s-hash-%s" % (what, w[IDX["cipher_mode"]], w[IDX["hash_alg"]])
         if cls not in findings:
             key, text = DISC_KEYS.get(cls, (cls, l[0][2]))
             if cls.startswith("VR:"):
@@ -828,7 +829,7 @@ def main(tier, seed):
                              replay_obj(seed, tier, lines[gi], tags[gi], model[gi], real[gi], by_case.get(gi, []), l[0][2]), len(l))
     # statically detected classes that the API run did not confirm (should not happen)
     for cls, l in prop_fail.items():
-        if cls not in findings:
+        if cls not in findings and not any(gi in bfail_by_case for gi in l[:40]):
             gi = l[0]
             key, text = DISC_KEYS.get(cls, (cls, classify(real[gi], model[gi][1], model[gi][3])))
             findings[cls] = (key, text + " (checker verdict vs catalogue; API run did not show a failure)",
